@@ -25,6 +25,25 @@ func runC07(c *Ctx) {
 		cl := g.clean(kind)
 		cd := cl.Claims()
 		cd.Expires, cd.NotBefore = exp, nbf
+		if ac, ok := cl.(*jwt.AccountClaims); ok && !emit {
+			// an import whose activation token is itself expired, or not valid yet: the account's time-check issues are
+			// about the account's own times - a token it carries adds none
+			exporter := newSigner("account")
+			act := jwt.NewActivationClaims(ac.Subject)
+			act.ImportSubject, act.ImportType = "timed.import.>", jwt.Stream
+			if g.rng.Intn(2) == 0 {
+				act.Expires = now - 5000
+			} else {
+				act.NotBefore = now + 5000
+			}
+			if tok, err := act.Encode(exporter.kp); err == nil {
+				ac.Imports.Add(&jwt.Import{Name: "timed", Subject: "timed.import.x", Account: exporter.pub, Type: jwt.Stream, Token: tok})
+				if ac.Limits.Imports != -1 {
+					ac.Limits.Imports++
+				}
+				c.count("account_with_an_import_whose_token_has_a_time_problem")
+			}
+		}
 		o := observeValidate(cl)
 		// outside a 2-second band around the observed second
 		for _, t := range []int64{exp, nbf} {
@@ -599,6 +618,20 @@ func runC10(c *Ctx) {
 						c.violation("C11: Validate panicked: "+o.Panic, inp)
 					} else if o.Blocking != !allOK {
 						c.violation("C10: account-level validation disagrees with the binding rule", inp)
+					}
+					// ... and the same account as it comes back from its own token (encoded by an operator, decoded): the
+					// import is bound as it was
+					if opk := g.kr.by["operator"]; opk != nil {
+						if t2, err := ac.Encode(opk.kp); err == nil {
+							if d2, err := jwt.DecodeAccountClaims(t2); err == nil && d2 != nil {
+								o2 := observeValidate(d2)
+								c.sum.ImplChecks++
+								if o2.Panic == "" && o2.Blocking != !allOK {
+									inp["import_as_decoded"] = fmt.Sprintf("%+v", *d2.Imports[0])
+									c.violation("C10: the account decoded from its own token binds the import differently", inp)
+								}
+							}
+						}
 					}
 					distinct[fmt.Sprint(pat, signerKind, layout, got)] = true
 					if allOK {
